@@ -51,6 +51,13 @@ def generate(rng, tier):
         a = rng.getrandbits(64)
         if kind != "gibbs":
             cases.append({"op": "diffseed", "a": dict(spec(kind, f, a), op="run"), "b": dict(spec(kind, f, a ^ 1), op="run")})
+    # (e') extreme seeds must still be distinguished (saturating / clamped derivations collapse them)
+    for kind, f in KINDS:
+        if kind == "gibbs":
+            continue
+        for (a, b) in [(MAXU - 1, MAXU), (MAXU - 2, MAXU - 1), (MAXU, 0)]:
+            nc = rng.choice([1, 3])
+            cases.append({"op": "diffseed", "a": dict(spec(kind, f, a, nc), op="run"), "b": dict(spec(kind, f, b, nc), op="run")})
     # (f) seeds against the model
     for s in [0, 42, MAXU, MAXU - 3, 1 << 63, rng.getrandbits(64)]:
         cases.append({"op": "seeds", "kind": "mh", "f": "f64", "seed": str(s), "n_chains": 6, "n": 1, "d": 0, "k": 4})
